@@ -103,7 +103,7 @@ static std::vector<Bytes> real_addresses() {
     for (const char *d : {"iana\xE3\x80\x82org", "\xD0\xBF\xD0\xBE\xD1\x87\xD1\x82\xD0\xB0\xE3\x80\x82\xD1\x80\xD1\x84", "mail\xEF\xBC\x8Eru", "a\xEF\xBD\xA1" "b\xEF\xBD\xA1" "com",
                           "mail.\xEF\xBD\x8C\xEF\xBD\x8F\xEF\xBD\x83\xEF\xBD\x81\xEF\xBD\x8C\xEF\xBD\x88\xEF\xBD\x8F\xEF\xBD\x93\xEF\xBD\x94", "\xEF\xBD\x85\xEF\xBD\x98\xEF\xBD\x81\xEF\xBD\x8D\xEF\xBD\x90\xEF\xBD\x8C\xEF\xBD\x85.com",
                           "Example.COM", "www.eXample.Org", "x.XN--P1AI", "4.3.2.1.in-addr.arpa", "example.test", "mail.example.invalid", "EXAMPLE.LocalHost", "example.example", "a.b.example.onion",
-                          "example.com.", "host.localhost.", "www.test.", "iana.org.", "EXAMPLE.ORG.", "x.onion.", "localhost.", "a.ru."})
+                          "example.example.com", "www.example.cdn.example.net", "example.com.example.org", "home.com", "example.arpa", "example.com.", "host.localhost.", "www.test.", "iana.org.", "EXAMPLE.ORG.", "x.onion.", "localhost.", "a.ru."})
         v.push_back(Bytes("u@") + d);
     return v;
 }
